@@ -4,7 +4,7 @@
    transmitting; the exact remainder (and only a chunk of exactly the missing length) is appended and, if the validator
    accepts the concatenation, delivered; every transmission starts with an empty fragment buffer. *)
 From Coq Require Import ZArith List Bool String Arith.
-From GW Require Import Prelude PyStr Crc16 Frames Responses CrcTable ModbusGen ProtoGen RtuResp CmdResp Proto ProtoEvolves ProtoProps.
+From GW Require Import Callbacks CallbackGen CallbackRefine Prelude PyStr Crc16 Frames Responses CrcTable ModbusGen ProtoGen RtuResp CmdResp Proto ProtoEvolves ProtoProps.
 Import ListNotations.
 
 Theorem C07_rtu_prefix_is_partial : forall a addr off cnt payload n,
@@ -49,6 +49,16 @@ Theorem C07_reassembled_data_was_validated : forall es k ka r s acts, run (init 
   forall c t, In (ADone c (OResp t)) acts -> In t (s_accepted s).
 Proof. exact delivery. Qed.
 
+(* the model's reception function IS the current source of datagram_received / data_received (translated by tools/cb2v.py on this
+   run): interpreting the generated program gives `received` for every state, datagram and validator verdict *)
+Theorem C07_datagram_received_is_the_model : forall s id len v, s_kind s = UDP -> s_cmd s = true ->
+  runm udp_datagram_received s (rx_locals id len v) = received s id len v.
+Proof. exact udp_datagram_received_refined. Qed.
+
+Theorem C07_data_received_is_the_model : forall s id len v, s_kind s = TCP -> s_cmd s = true ->
+  runm tcp_data_received s (rx_locals id len v) = received s id len v.
+Proof. exact tcp_data_received_refined. Qed.
+
 Print Assumptions C07_rtu_prefix_is_partial.
 Print Assumptions C07_tcp_prefix_is_partial.
 Print Assumptions C07_aa55_prefix_is_partial.
@@ -57,3 +67,5 @@ Print Assumptions C07_exact_remainder_is_appended_and_delivered.
 Print Assumptions C07_other_lengths_are_never_appended.
 Print Assumptions C07_each_transmission_starts_without_fragment.
 Print Assumptions C07_reassembled_data_was_validated.
+Print Assumptions C07_datagram_received_is_the_model.
+Print Assumptions C07_data_received_is_the_model.
